@@ -257,7 +257,14 @@ impl ScopeGen<'_> {
                         return vec![Node::Capture(n, vec![Node::If { arms: vec![(cond, vec![Node::Text("once".into())])], else_: None }])];
                     }
                     let len = 1 + self.rng.below(2);
-                    let body = self.body(depth + 1, in_loop, len);
+                    let mut body = self.body(depth + 1, in_loop, len);
+                    if in_loop && self.rng.chance(1, 4) {
+                        // an interrupt raised inside the capture body: the capture still binds what
+                        // its body printed up to there
+                        let op = if self.rng.chance(1, 2) { Node::Break } else { Node::Continue };
+                        let pos = self.rng.below(body.len() + 1);
+                        body.insert(pos, Node::If { arms: vec![(Cond::atom(Atom::Cmp(Expr::Var(Path::name("forloop").dot("index")), Op::Eq, Expr::int(self.rng.range(1, 3)))), vec![op])], else_: None });
+                    }
                     vec![Node::Capture(n, body)]
                 }
                 3 => vec![Node::Incr(self.name())],
